@@ -23,6 +23,7 @@ EXC = {'ValueError': ValueError, 'KeyError': KeyError, 'RuntimeError': RuntimeEr
 FILTERS = [lambda x: True, lambda x: x % 2 == 0, lambda x: x % 2 == 1, lambda x: x >= 5, lambda x: x < 3]
 
 STEP_BUDGET = 5000
+MAX_COND_LEAVES = 512        # a condition whose flattened value would have more entries than this cuts the script short (not replayed, not judged)
 
 
 class Case:
@@ -94,6 +95,7 @@ class Runner:
         self.slots = {}
         self.labels = {}
         self.keep = []
+        self.leaves, self._keep, self.oversized = {}, [], False      # leaf occurrences per condition (see MAX_COND_LEAVES)
         self.nlabel = 0
         self.pnames = {}
         self.res = []
@@ -329,6 +331,14 @@ class Runner:
                 elif op in ('allof', 'anyof'):
                     evs = [slots[s] for s in ins[2:] if s in slots]
                     mine = list(evs)
+                    # the flattened value of a condition has one entry per leaf *occurrence*: a condition over conditions with repeated
+                    # operands doubles with every level (the library builds that list when the condition is processed - a random script
+                    # in a million reaches 10^8 entries).  Such a script is cut short here and left out of replay and oracles.
+                    nleaf = sum(self.leaves.get(id(e), 1) for e in evs)
+                    if nleaf > MAX_COND_LEAVES:
+                        self.oversized = True
+                        slots[ins[1]] = self.new(env.event())
+                        continue
                     if len(evs) == 2 and ins[1] % 2 == 0:
                         # two operands, even target slot: the same condition written with the operator (`a & b` is
                         # all_of([a, b]), `a | b` is any_of([a, b])); chains like `(a & b) & c` arise when a slot holds a condition
@@ -342,6 +352,8 @@ class Runner:
                         self.notes.append(('cond-form', ('list', 'generator', 'iterator', 'tuple', 'filter')[form], len(evs)))
                         cond = (AllOf if op == 'allof' else AnyOf)(env, opnds)
                     slots[ins[1]] = self.new(cond)
+                    self.leaves[id(cond)] = nleaf
+                    self._keep.append(cond)          # (ids stay unique while the run lasts)
                     evs.clear()          # the caller's list is the caller's: a condition must not alias it
                     self.hook('cond', slots[ins[1]], op, mine)
                 elif op == 'request':
